@@ -1,18 +1,21 @@
 #!/bin/sh
 # Runs every seeded change under /verif/seeded against the quick check of its own property (plus listed companions) in scratch
 # worktrees and writes /verif/seeded/RESULTS.tsv:  seed <TAB> check <TAB> exit <TAB> signatures
-cd /verif
-OUT=/verif/seeded/RESULTS.tsv
+HERE="$(cd "$(dirname "$0")/.." && pwd)"
+cd "$HERE"
+OUT="$HERE/seeded/RESULTS.tsv"
 : > "$OUT.tmp"
-for d in $(ls -d /verif/seeded/*/ | xargs -n1 basename); do
+for d in $(ls -d "$HERE"/seeded/*/ | xargs -n1 basename); do
   id=${d%%-*}
   extra=""
   case "$d" in
     C10-1) extra="C11";; C06-1|C06-2) extra="C07";; C08-2) extra="C09";; C11-2) extra="C10";;
     C09-r2-2) extra="C07";; C09-r2-3) extra="C08";; C08-r2-2) extra="C03";; C08-r2-3) extra="C09";; C03-r2-3) extra="C15";;
     C12-r2-1) extra="C14";; C14-r2-1) extra="C12";; C01-r2-2) extra="C02";; C01-r2-3) extra="C16";; C04-r2-2) extra="C05 C11";;
+    C06-r2-1) extra="C08";; C06-r2-2) extra="C07";; C07-r2-1) extra="C06";; C13-r2-2) extra="C11 C05";; C02-r2-2) extra="C01";; C02-r2-3) extra="C03";;
+    C16-r2-3) extra="C15";; C10-r2-2) extra="C11";; C07-r2-2) extra="C09";;
   esac
-  LINES_MAX=3 tools/try_patch.sh /verif/seeded/$d/patch.diff $id $extra 2>&1 | grep "^RESULT" | while read -r _ chk ex rest; do
+  LINES_MAX=3 tools/try_patch.sh "$HERE/seeded/$d/patch.diff" $id $extra 2>&1 | grep "^RESULT" | while read -r _ chk ex rest; do
     sigs=$(echo "$rest" | grep -o "signature=[^ ]*" | sed 's/signature=//' | tr '\n' ' ')
     printf "%s\t%s\t%s\t%s\n" "$d" "$chk" "$ex" "$sigs" >> "$OUT.tmp"
   done
